@@ -8,7 +8,7 @@ P = "Minicbor.C12."
 REQUIRED = [P + n for n in """f32_bits_roundtrip f64_bits_roundtrip f16_decode_exact widen_exact accessor_widening
 accessor_widening_value no_narrowing no_half_feature f16_encode_exact f16_encode_nan_payload f16_wire_roundtrip
 f16_encode_nan_inf f16_encode_rne""".split()]
-PACKAGES = ["hcore"]
+PACKAGES = ["hcore", "hserde"]
 RULE = ("Per-op streams (dec f16|f32|f64 <item>, enc f16|f32|f64 <bits>), judged by an oracle computed in the orchestrator "
         "(CPython struct 'e'/'f'/'d' codecs: exact half decode, exact widening, round-to-nearest-even half packing) and compared with the model: "
         "all 65 536 half patterns through the three accessors (items f9xxxx) and back through enc f16 of their f32 image; f32 patterns stratified over "
@@ -325,6 +325,47 @@ def streams(rng, tier):
         ops.append(f"dec f16 fa{b32:08x}"); ops.append(f"dec f16 fb{b64:016x}"); ops.append(f"dec f32 fb{b64:016x}")
     out.append(Stream("no-narrowing", "hcore", ops, judge=judge, nontrivial=nontrivial,
                       rule="dec f32 on fb items, dec f16 on fa/fb items: always a (type) error, also when the value would fit"))
+    # ---- the same rules through the serde bridge's float deserializers (deserialize_f32 / deserialize_f64 call the accessors)
+    from verifkit import wiregen as _W, typegen as _T
+    bops = []
+    for h in list(range(0, 65536, 61)) + [0, 0x8000, 0x3c00, 0x7c00, 0xfc00, 0x7e00, 0x0001, 0x7bff]:
+        bops += [f"de f32 f9{h:04x}", f"de f64 f9{h:04x}"]
+    for b in pats[::(11 if tier == "quick" else 1)]:
+        bops += [f"de f32 fa{b:08x}", f"de f64 fa{b:08x}"]
+    for b in f64_patterns(rng, tier):
+        bops += [f"de f64 fb{b:016x}", f"de f32 fb{b:016x}"]
+    def judge_bridge(op, impl, model, spec):
+        w = op.split(" ")
+        want, item = w[1], w[2]
+        width = {"f9": 16, "fa": 32, "fb": 64}[item[:2]]
+        bits = int(item[2:], 16)
+        iw = impl.split(" ")
+        if width > int(want[1:]):
+            if iw[0] != "err":
+                return "violation"          # a wider float accepted by a narrower deserializer
+            return "ok" if impl == model else "corr"
+        if iw[0] != "ok" or len(iw) != 3 or int(iw[2]) != len(item) // 2 or not iw[1].startswith(want + ":"):
+            return "violation"
+        got = int(iw[1].split(":")[1], 16)
+        b32 = bits if width == 32 else _T.half_to_f32_bits(bits) if width == 16 else None
+        nan = (width == 16 and isnan16(bits)) or (width == 32 and (bits >> 23) & 0xff == 0xff and bits & 0x7fffff)
+        if want == "f64" and width == 64:
+            exp = bits
+        elif want == "f32":
+            exp = b32
+        else:
+            exp = _W.f32_to_f64_bits(b32)
+        if nan:
+            # a NaN stays a NaN of the same sign (payload rules: the model's, compared below)
+            isn = (got >> 23) & 0xff == 0xff and got & 0x7fffff if want == "f32" else (got >> 52) & 0x7ff == 0x7ff and got & ((1 << 52) - 1)
+            if not isn or (got >> (31 if want == "f32" else 63)) != (b32 >> 31):
+                return "violation"
+        elif got != exp:
+            return "violation"
+        return "ok" if impl == model else "corr"
+    out.append(Stream("bridge-floats", "hserde", bops, judge=judge_bridge, nontrivial=nontrivial,
+                      rule="de f32|f64 through minicbor-serde on f9 / fa / fb items: bit-exact at the item's own width, exact widening, and a wider item is "
+                           "always refused by the narrower deserializer (what serde's visitor would do with a narrowed value never happens)"))
     # ---- the Encode impls of f32 / f64 (to_vec, containers, derived types go through these, not through Encoder::f64)
     ops = []
     for b in pats[::(7 if tier == "quick" else 1)]:
